@@ -100,6 +100,24 @@ CHECKS["C14"] = dict(
     technique="SMT decision of semantic multilinearity (z3 NRA over complex pairs) for every accepted integrand",
     design="§4 C14", engine="E1")
 
+CHECKS["C16"] = dict(
+    level="translation_validation",
+    text="lhs/rhs/system/functional run on forms with factored sums, restricted sums of mixed arity, several "
+         "subdomains and MixedFunctionSpace parts; action/adjoint/energy_norm (with and without explicit "
+         "coefficient) on bilinear forms in real and complex mode; z3 proves F == lhs - rhs, the multilinearity "
+         "of the parts, functional(F) == F at zero arguments, action == substitution, adjoint == conjugate with "
+         "swapped arguments and energy_norm == a(f, f), per (integral type, subdomain), for all values.",
+    technique="SMT translation validation (z3 NRA) of form transformations against substitution/linearity semantics",
+    design="§4 C16", engine="E1")
+CHECKS["C22"] = dict(
+    level="translation_validation",
+    text="extract_blocks runs on mixed-element and MixedFunctionSpace forms (mass, cross-weighted, gradient, "
+         "two-sided interior facet, linear), replace_argument on/off, all blocks or one at a time; z3 proves each "
+         "block equals the form with the arguments replaced by the embedded i-th / j-th sub-functions for all "
+         "values (so blocks sum to the form and depend only on their sub-functions); None blocks must be zero.",
+    technique="SMT translation validation (z3 NRA) of block extraction against embedding semantics",
+    design="§4 C22", engine="E1")
+
 NOT_APPLICABLE = {
     "C11": "Signature injectivity is injectivity of string renderings (repr/str, numpy array printing, float "
            "formatting) composed with sha512: CrossHair cannot confirm it, z3/cvc5 string theories answer unknown, "
